@@ -258,7 +258,7 @@ Proof.
 Qed.
 
 Lemma eval_hof_inv h c lit fn init st r st' :
-  stk st <> [] -> eval_hof f h c lit fn init st = Ok (r, st') -> stk st' = stk st.
+  stk st <> [] -> eval_hof fns f h c lit fn init st = Ok (r, st') -> stk st' = stk st.
 Proof.
   intros Hne H. unfold eval_hof in H.
   destruct (ev f c st) as [[vc st1]| | |] eqn:E1; cbn [bind] in H; try discriminate.
@@ -271,6 +271,7 @@ Proof.
   destruct (match init with Some ie => ev f ie st1 | None => Ok (VAbsent, st1) end) as [[vi st2]| | |] eqn:E2; cbn [bind] in H; try discriminate.
   specialize (Hi _ _ eq_refl).
   assert (Hne2 : stk st2 <> []) by congruence.
+  match type of H with (if ?b then _ else _) = _ => destruct b; [destruct (Bool.eqb lit (is_lit_name fn)); discriminate|] end.
   destruct h; destruct init; try discriminate H; go f HP; simp_stk; congruence.
 Qed.
 
